@@ -104,6 +104,7 @@ def gen_program(rng, garbage=False, maxops=22):
     mode = "j" if garbage else rng.choice(["j", "p"])
     prog = {"offset": rng.choice([0, 0, 0, 1, 1 << 40, U64 - 5]), "mode": mode, "ops": [], "in_domain": not garbage}
     present, keys = set(), set()
+    kills = rng.random() < 0.15      # child processes are slow: a minority of the programs
     for _ in range(rng.randint(4, maxops)):
         k = rng.random()
         if k < 0.24:
@@ -160,7 +161,8 @@ def gen_program(rng, garbage=False, maxops=22):
             # directory stays locked), so programs with undecodable command data only reopen in JSON
             # mode and exercise the panic through the explicit ConvertToProto call
             mode = "j" if garbage else rng.choice(["j", "p"])
-            prog["ops"].append({"op": "reopen", "mode": mode})
+            # kill: the process is SIGKILLed with the database open and a new process reopens it
+            prog["ops"].append({"op": "kill" if kills and rng.random() < 0.5 else "reopen", "mode": mode})
         else:
             prog["ops"].append({"op": "convert"})
     # finish with a full read-out so that every effect is observed
@@ -236,8 +238,8 @@ def op_tok(o):
         return "setu:%s,%d" % (o["k"] or "-", o["n"])
     if k in ("getk", "getu"):
         return "%s:%s" % (k, o["k"] or "-")
-    if k == "reopen":
-        return "reopen:" + o["mode"]
+    if k in ("reopen", "kill"):
+        return k + ":" + o["mode"]
     if k == "putraw":
         return "putraw:%d,%s" % (o["i"], o["v"] or "-")
     raise ValueError(k)
@@ -376,8 +378,8 @@ def reference(p, outs):
                     del stable[key]   # resynchronise so that one defect is reported once
                 else:
                     bad("store-monitor:stable-read", where + ": expected %s, got %s" % (want, got))
-        elif k in ("reopen", "convert"):
-            if k == "reopen":
+        elif k in ("reopen", "kill", "convert"):
+            if k in ("reopen", "kill"):
                 mode = o["mode"]
             if k == "convert" or o["mode"] == "p":
                 if any(e.get("menc") == "garbage" for e in log.values()):
@@ -515,7 +517,7 @@ def run(ck, replay):
     ck.assumptions += ["indexes < 2^64 and DeleteRange max < 2^64-1 (max+1 wraps otherwise; raft never produces it)",
                        "LogCommand entries carry an encoded robust.Message (ConvertToProto panics on anything else)",
                        "JSON mode: append times within years 0..9999 (json.Marshal(time.Time) refuses others: StoreLogs returns the error)",
-                       "LevelDB durability across close/reopen; kill-9 durability is goleveldb's and is not exercised here"]
+                       "LevelDB durability: close/reopen and SIGKILL/reopen return the same map (exercised with child processes; power loss is not)"]
     ok = ck.proof_obligations()
     if not getattr(ck, "model_ok", False):
         ck.violation("tie-broken:model", {"what": "model driver could not be built", "output": ck.model_out[-3000:],
@@ -569,6 +571,8 @@ def run(ck, replay):
             dist["ops"][o["op"]] = dist["ops"].get(o["op"], 0) + 1
             if o["op"] == "reopen":
                 dist["reopen"] += 1
+            if o["op"] == "kill":
+                dist["kill9_reopen"] = dist.get("kill9_reopen", 0) + 1
             if o["op"] == "convert":
                 dist["convert"] += 1
             if o["op"] == "sl":
@@ -593,7 +597,7 @@ def run(ck, replay):
     ck.cov["traces_validated_against_impl"] = len(progs)
     ck.cov["rule"] = ("random operation programs (4-22 ops + full read-out) over small indexes, indexes around the bytes of 'stablestore-' "
                       "(0x737461626c657374 +-2, 0x73.., 0x74..) and huge ones (2^63, 2^64-1), all raft entry types, command data as protobuf or legacy JSON "
-                      "messages, both store encodings with close/reopen in either encoding and explicit ConvertToProto at any position, long JSON logs crossing "
+                      "messages, both store encodings with close/reopen and SIGKILL/reopen (child processes of the test binary) in either encoding and explicit ConvertToProto at any position, long JSON logs crossing "
                       "the 100-entry conversion batches, 4% programs with undecodable command data (panic path); run on a real LevelDBStore in $TMPDIR and on the "
                       "extracted model; reference monitor = two python dicts. non-trivial = program that read back at least one entry or stable value; distinct by text")
     ck.cov["input_distribution"] = dist
